@@ -296,7 +296,7 @@ func main() {
 	}
 	rng := rand.New(rand.NewSource(*seed))
 	for i := 0; i < *nhist; i++ {
-		style := []int{0, 0, 1, 1, 1, 2}[i%6]
+		style := []int{0, 0, 1, 1, 1, 2, 3, 3}[i%8]
 		mode, ign, ops := genHistory(rng, style)
 		execute(mode, ign, ops, fmt.Sprintf("hist%d", style))
 		n++
